@@ -118,7 +118,7 @@ def run(ck):
                     for kw in (loose, strict):
                         c = Case(test, build(p), fr(kw), n=n, pat={'inp': p} if ninp == 1 else {'lon': p[0], 'lat': p[1]},
                                  meta={'class': 'pair', 't': [100 + 10 * i for i in range(n)]})
-                        outs.append((c, run_case(ck, c)))
+                        outs.append((c, run_case(ck, c, allow_refused=True)))
                     compare_outcomes(ck, test, outs, f'{loose} -> {strict}')
     # climatology member spans
     feats = {}
@@ -130,7 +130,7 @@ def run(ck):
                 c = Case('climatology_test', [], dict(config=cfg, inp=data_input('inp', ip), tinp=time_input('tinp', [100, 150, 250]),
                                                      zinp=data_input('zinp', 'ppm', values=[Fr(15), Fr(30), Fr(15)])),
                          n=3, pat={'inp': ip}, meta={'class': 'pair'}, label=f'climatology_test(members={ms}; inp:{ip!r})')
-                outs.append((c, run_case(ck, c)))
+                outs.append((c, run_case(ck, c, allow_refused=True)))
             compare_outcomes(ck, 'climatology_test', outs, f'{lm} -> {sm}')
     ck.floor('C16.monotone', 300)
 
@@ -138,6 +138,10 @@ def run(ck):
 def compare_outcomes(ck, test, outs, what):
     (ca, oa), (cb, ob) = outs
     key = fn_key(ca)
+    if 'refused' in (oa.kind, ob.kind):
+        from .c17 import equal_flags
+        equal_flags(ck, 'C16.monotone', f'{key}:pair', ca.label, oa, cb.label, ob, f'{test}: {what}', relation=relation)
+        return
     if oa.kind == 'raise' or ob.kind == 'raise':
         if oa.kind != ob.kind:
             ck.violate('C16.monotone', f'{key}:raise-differs', f'{ca.label} vs stricter {cb.label}: one raises ({oa.exc or ob.exc}), the other does not')
